@@ -567,6 +567,16 @@ def check_path_extensions(ctx, db):
     t = re.sub(r'\s+', ' ', norm(clone.canon(next(s for s in stmts if s is not None), r)))
     ok = 'EndType::HalfWidth' in t and 'EndType::Extended' in t and 'EndType::Flush' in t
     ctx.check(ok, 'R-TABLE', 'read_oas/PATH-end-type', arms['PATH'][2].loc(), 'the end type is reconstructed from the two extensions (both 0 -> Flush, both half width -> HalfWidth, else Extended)')
+    # reader: SS / EE decode consumes a signed integer exactly for nibble value 3
+    sws = [s_ for st in stmts for s_ in st.walk() if s_.k == 'SwitchStmt' and 'extension_scheme' in s_.child('cond').text()]
+    ok = len(sws) == 2
+    got = []
+    for s_, mask, three in zip(sws, (0x0C, 0x03), (0x0C, 0x03)):
+        arms_ = {tuple(l): O.seq_of(st_) for l, st_, t_ in tables.switch_arms(s_)}
+        got.append((O.info_mask(s_.child('cond'), 'extension_scheme'), arms_))
+        ok = ok and O.info_mask(s_.child('cond'), 'extension_scheme') == mask and all((seq == 'sint') == (labs == (three,)) and seq in ('', 'sint') for labs, seq in arms_.items()) and (three,) in arms_
+    dst = [norm(x.child('lhs').text()) for s_ in sws for x in s_.walk() if is_assign(x) and 'oasis_read' in x.child('rhs').text()]
+    ctx.check(ok and dst == ['modal_path_extensions.u', 'modal_path_extensions.v'], 'R-TABLE', 'read_oas/PATH-extension-decode', arms['PATH'][2].loc(), 'the start (SS) then the end (EE) extension is read as a signed integer exactly when its two scheme bits are 11', 'extension decode: %s -> %s' % (got, dst))
     # half-width sink
     for qn, pat in (('gdstk::FlexPath::to_oas', r'llround\(\(.*half_width_and_offset\[0\]\.u \* state\.scaling\)\)'), ('gdstk::RobustPath::to_oas', r'llround\(\(+0\.5 \* interp\(el->width_array\[0\], 0\)\) \* this->width_scale\) \* state\.scaling\)\)')):
         f = db.fn(qn)
@@ -764,9 +774,25 @@ def check_units(ctx, db):
         for f in db.fn(qn, all=True):
             ctx.touch(f)
             bad = []
+            # expressions that reach an integer field: codec arguments, and definitions of the locals passed as codec arguments
+            roots = []
+            sinkvars = set()
             for c in f.walk():
-                if c.k in ('ImplicitCastExpr', 'CStyleCastExpr', 'CXXStaticCastExpr', 'CXXFunctionalCastExpr') and (c.ck or '') == 'FloatingToIntegral':
-                    bad.append((c.loc(), norm(c.text())[:60]))
+                if c.k == 'CallExpr' and c.callee in O.WRITE_CODEC and O.WRITE_CODEC[c.callee] in ('uint', 'sint', 'gdelta', '1delta'):
+                    for a in c.args[1:]:
+                        roots.append(a)
+                        a0 = _strip_casts(a)
+                        if a0.k == 'DeclRefExpr' and a0.dk == 'local':
+                            sinkvars.add(lvalue_key(a0))
+            for v in f.walk():
+                if v.k == 'VarDecl' and v.child('init') is not None and ('v%d:%s' % (v.d, v.n)) in sinkvars:
+                    roots.append(v.child('init'))
+                elif is_assign(v) and _strip_casts(v.child('lhs')).k == 'DeclRefExpr' and lvalue_key(_strip_casts(v.child('lhs'))) in sinkvars:
+                    roots.append(v.child('rhs'))
+            for r_ in roots:
+                for c in r_.walk():
+                    if c.k in ('ImplicitCastExpr', 'CStyleCastExpr', 'CXXStaticCastExpr', 'CXXFunctionalCastExpr') and (c.cast or '') == 'FloatingToIntegral':
+                        bad.append((c.loc(), 'floating value truncated into an integer field: `%s`' % norm(c.text())[:70]))
             for c in f.walk():
                 if c.k == 'CallExpr' and c.callee in ('llround', 'lround', 'std::llround'):
                     n += 1
@@ -780,7 +806,7 @@ def check_units(ctx, db):
     f = db.fn('gdstk::scale_and_round_array', required=False)
     if f is not None:
         t = norm(clone.canon(f.body, f))
-        ctx.check(re.search(r'for \(uint64_t v(\d+) = \(2 \* p0\.count\); \(v\1 > 0\); \(v\1--\)\) \(\(\*\(v\d+\+\+\)\) = \(int64_t\)llround\(\(\(\*\(v\d+\+\+\)\) \* p1\)\)\)', re.sub(r'\s+', ' ', t)) is not None and 'FloatingToIntegral' not in ' '.join((c.ck or '') for c in f.walk()), 'R-UNIT', 'units/scale_and_round_array', f.loc(), 'point arrays are scaled and rounded component-wise with llround')
+        ctx.check(re.search(r'for \(uint64_t v(\d+) = \(2 \* p0\.count\); \(v\1 > 0\); \(v\1--\)\) \(\(\*\(v\d+\+\+\)\) = \(int64_t\)llround\(\(\(\*\(v\d+\+\+\)\) \* p1\)\)\)', re.sub(r'\s+', ' ', t)) is not None and 'FloatingToIntegral' not in ' '.join((c.cast or '') for c in f.walk()), 'R-UNIT', 'units/scale_and_round_array', f.loc(), 'point arrays are scaled and rounded component-wise with llround')
 
 
 def check_detection(ctx, db):
